@@ -49,7 +49,7 @@ Ltac prim :=
   let m := fresh "m" in let sh := fresh "sh" in let Hp := fresh "Hp" in
   let x := fresh "x" in let m' := fresh "m'" in let sh' := fresh "sh'" in let E := fresh "E" in
   intros m sh Hp x m' sh' E; revert E;
-  cbv beta iota zeta delta [lin_into lin_assign mul_into mulptz_into mulcst_into unary_into_late apply_params_asserting
+  cbv beta iota zeta delta [lin_into lin_assign mul_into mulptz_into mulcst_into unary_into apply_params_asserting
     mul_ct_params mul_pt_params offset_unary offset_binary ssub eff maxk compact
     bind ret fail panic get set_meta set_lb set_ld shift csub usub passert fst snd];
   repeat (match goal with
@@ -98,8 +98,8 @@ Proof.
   all: intros EQ; try discriminate EQ; injection EQ as <- <- <-; unfold fits, nn, eff; cbn [cm csize ld lb] in *; lia.
 Qed.
 
-Lemma unary_into_late_fits (B : Z) (d a : ct) :
-  nnct a -> hR (fun _ => True) (unary_into_late B d a) (fun _ m => fits B (csize d) m).
+Lemma unary_into_fits (B : Z) (d a : ct) :
+  nnct a -> hR (fun _ => True) (unary_into B d a) (fun _ m => fits B (csize d) m).
 Proof.
   intros [Ha1 Ha2]. destruct d as [dm ds], a as [[al ab] asz].
   cbn [cm csize ld lb] in *. prim; unfold fits, nn, eff; cbn [cm csize ld lb pm pmaxk pb2k] in *; lia.
@@ -136,7 +136,7 @@ Lemma add_many_fits (chk : bool) (B : Z) (d : ct) (ins : list ct) :
 Proof.
   intros H. unfold add_many. destruct ins as [ | x [ | y tl ] ].
   - apply hR_fail.
-  - inversion H; subst. apply unary_into_late_fits; assumption.
+  - inversion H; subst. apply unary_into_fits; assumption.
   - inversion H as [ | ? ? Hx H1 ]; subst. inversion H1 as [ | ? ? Hy Htl ]; subst.
     eapply hR_bind; [ apply acc_fits_keeps | ]. intros ?u.
     eapply hR_bind; [ apply (lin_into_fits chk B d x y Hx Hy) | ]. intros ?u.
@@ -158,7 +158,7 @@ Proof.
   - apply hR_if; [ apply hR_fail | ].
     destruct ins as [ | x [ | y [ | z tl ] ] ].
     + apply hR_fail.
-    + inversion H; subst. apply unary_into_late_fits; assumption.
+    + inversion H; subst. apply unary_into_fits; assumption.
     + inversion H as [ | ? ? Hx H1 ]; subst. inversion H1; subst. apply mul_into_fits; assumption.
     + set (ins := x :: y :: z :: tl) in *.
       set (l := firstn (Nat.div2 (length ins)) ins). set (r := skipn (Nat.div2 (length ins)) ins).
@@ -262,15 +262,221 @@ Proof.
   unfold good, inv, maxk; cbn [cm csize]. repeat split; assumption.
 Qed.
 
-(* the single-input forms of add_many / mul_many still assign the metadata before the budget check *)
-Lemma many_single_input_stale_refuted :
-  exists (B : Z) (d a : ct) (e : ekind) (m : meta),
-    1 <= B /\ good B d /\ good B a /\
-    comp_step true B CAddMany d [a] [] = Fail e m /\ comp_step true B CMulMany d [a] [] = Fail e m /\
-    maxk B d < eff m.
+(* ---- both exits: a composite that fails leaves metadata the destination can hold ---- *)
+Definition hB {A : Type} (Inv : meta -> Prop) (c : M A) (Q : A -> Prop) : Prop :=
+  forall m sh, Inv m -> match c m sh with R x m' _ => Inv m' /\ Q x | F _ m' => Inv m' | P => True end.
+
+Lemma hB_bind {A C : Type} (Inv : meta -> Prop) (c : M A) (Q : A -> Prop) (f : A -> M C) (Q' : C -> Prop) :
+  hB Inv c Q -> (forall x, Q x -> hB Inv (f x) Q') -> hB Inv (bind c f) Q'.
 Proof.
-  exists 19, (Ct (Meta 0 0) 1), (Ct (Meta 30 122) 8), ECapacity, (Meta 30 122).
-  unfold good, inv, eff, maxk, two62; cbn. repeat split; try lia; reflexivity.
+  intros Hc Hf m sh Hm. unfold bind. specialize (Hc m sh Hm).
+  destruct (c m sh) as [x m1 sh1 | e m1 | ]; [ | exact Hc | exact I ].
+  destruct Hc as [H1 H2]. exact (Hf x H2 m1 sh1 H1).
+Qed.
+
+Lemma hB_weaken {A : Type} (Inv : meta -> Prop) (c : M A) (Q Q' : A -> Prop) :
+  hB Inv c Q -> (forall x, Q x -> Q' x) -> hB Inv c Q'.
+Proof.
+  intros H HQ m sh Hm. specialize (H m sh Hm). destruct (c m sh); auto. destruct H; split; auto.
+Qed.
+
+Lemma hB_if {A : Type} (Inv : meta -> Prop) (b : bool) (c1 c2 : M A) (Q : A -> Prop) :
+  hB Inv c1 Q -> hB Inv c2 Q -> hB Inv (if b then c1 else c2) Q.
+Proof. destruct b; auto. Qed.
+
+Lemma hB_fail {A : Type} (Inv : meta -> Prop) (e : ekind) (Q : A -> Prop) : hB Inv (fail e) Q.
+Proof. intros m sh Hm. exact Hm. Qed.
+
+Lemma hB_ret {A : Type} (Inv : meta -> Prop) (x : A) (Q : A -> Prop) : Q x -> hB Inv (ret x) Q.
+Proof. intros HQ m sh Hm. split; assumption. Qed.
+
+Lemma hB_fold {A : Type} (Inv : meta -> Prop) (f : A -> M unit) (l : list A) :
+  (forall x, In x l -> hB Inv (f x) (fun _ => True)) -> hB Inv (fold_m f l) (fun _ => True).
+Proof.
+  induction l as [ | x tl IH ]; intros H; cbn [fold_m].
+  - apply hB_ret. exact I.
+  - eapply hB_bind; [ apply H; left; reflexivity | ].
+    intros ?u ?Hu. apply IH. intros y Hy. apply H. right; exact Hy.
+Qed.
+
+Lemma on_tmp_B (Inv : meta -> Prop) (c : M unit) (Q : meta -> Prop) :
+  hR (fun _ => True) c (fun _ mt => Q mt) -> hB Inv (on_tmp c) Q.
+Proof.
+  intros Hc m sh Hm. unfold on_tmp.
+  destruct (c (Meta 0 0) sh) as [u m1 sh1 | e m1 | ] eqn:Ec; [ | exact Hm | exact I ].
+  split; [ exact Hm | exact (Hc _ _ I _ _ _ Ec) ].
+Qed.
+
+Ltac primB :=
+  let m := fresh "m" in let sh := fresh "sh" in let Hm := fresh "Hm" in
+  intros m sh Hm;
+  cbv beta iota zeta delta [lin_into lin_assign mul_into mulptz_into mulcst_into unary_into apply_params apply_params_asserting
+    mul_ct_params mul_pt_params offset_unary offset_binary ssub eff maxk compact acc_fits to_znx_check cst_to_znx mulcstrnx_prec
+    bind ret fail panic get set_meta set_lb set_ld shift csub usub passert fst snd];
+  repeat (match goal with
+          | |- context [if ?c then _ else _] => let E := fresh "E" in destruct c eqn:E
+          end; cbv beta iota zeta);
+  try exact I; try exact Hm; try (split; [ | exact I ]);
+  destruct m as [ml mb]; unfold fits, nn, eff in *; cbn [cm csize ld lb pm pmaxk pb2k] in *; try lia.
+
+Lemma lin_into_B (chk : bool) (B : Z) (d a b : ct) :
+  nnct a -> nnct b -> hB (fits B (csize d)) (lin_into chk B d a b) (fun _ => True).
+Proof.
+  intros [Ha1 Ha2] [Hb1 Hb2]. destruct d as [dm ds], a as [[al ab] asz], b as [[bl bb] bs].
+  cbn [cm csize ld lb] in *. primB.
+Qed.
+
+Lemma lin_assign_B (chk : bool) (B sz : Z) (a : ct) :
+  nnct a -> hB (fits B sz) (lin_assign chk a) (fun _ => True).
+Proof. intros [Ha1 Ha2]. destruct a as [[al ab] asz]. cbn [cm ld lb] in *. primB. Qed.
+
+Lemma mul_into_B (B : Z) (d a b : ct) :
+  nnct a -> nnct b -> hB (fits B (csize d)) (mul_into B d a b) (fun _ => True).
+Proof.
+  intros [Ha1 Ha2] [Hb1 Hb2]. destruct d as [dm ds], a as [[al ab] asz], b as [[bl bb] bs].
+  cbn [cm csize ld lb] in *. primB.
+Qed.
+
+Lemma mulptz_into_B (B : Z) (d a : ct) (p : ptz) :
+  nnct a -> hB (fits B (csize d)) (mulptz_into B d a p) (fun _ => True).
+Proof.
+  intros [Ha1 Ha2]. destruct d as [dm ds], a as [[al ab] asz], p as [[pl pb] pk pbk].
+  cbn [cm csize ld lb pm pmaxk pb2k] in *. primB.
+Qed.
+
+Lemma mulcst_into_B (B : Z) (d a : ct) (prec : meta) :
+  nnct a -> hB (fits B (csize d)) (mulcst_into B d a prec) (fun _ => True).
+Proof.
+  intros [Ha1 Ha2]. destruct d as [dm ds], a as [[al ab] asz], prec as [pl pb].
+  cbn [cm csize ld lb] in *. primB.
+Qed.
+
+Lemma unary_into_B (B : Z) (d a : ct) :
+  nnct a -> hB (fits B (csize d)) (unary_into B d a) (fun _ => True).
+Proof.
+  intros [Ha1 Ha2]. destruct d as [dm ds], a as [[al ab] asz]. cbn [cm csize ld lb] in *. primB.
+Qed.
+
+Lemma acc_fits_B (Inv : meta -> Prop) (B n : Z) : hB Inv (acc_fits B n) (fun _ => True).
+Proof. unfold acc_fits. apply hB_if; [ apply hB_ret; exact I | apply hB_fail ]. Qed.
+Lemma to_znx_check_B (Inv : meta -> Prop) (l : Z) : hB Inv (to_znx_check l) (fun _ => True).
+Proof. unfold to_znx_check. apply hB_if; [ apply hB_ret; exact I | apply hB_fail ]. Qed.
+Lemma passert_B (Inv : meta -> Prop) (c : bool) : hB Inv (passert c) (fun _ => True).
+Proof. unfold passert. destruct c; [ apply hB_ret; exact I | intros m sh Hm; exact I ]. Qed.
+Lemma cst_to_znx_B (Inv : meta -> Prop) (B : Z) (prec : meta) (none : bool) : hB Inv (cst_to_znx B prec none) (fun _ => True).
+Proof.
+  unfold cst_to_znx. eapply hB_bind; [ apply to_znx_check_B | ]. intros ?u ?Hu. apply passert_B.
+Qed.
+
+Lemma accumulate_B (chk : bool) (B sz : Z) (A : Type) (term : A -> M unit) (rest : list A) (szt : Z) :
+  (forall x, In x rest -> hR (fun _ => True) (term x) (fun _ m => fits B szt m)) ->
+  hB (fits B sz) (accumulate chk A term rest) (fun _ => True).
+Proof.
+  intros H. unfold accumulate. apply hB_fold. intros x Hx.
+  eapply hB_bind; [ apply (on_tmp_B (fits B sz) (term x) (fits B szt)); apply H; exact Hx | ].
+  intros mt Hmt. apply lin_assign_B. exact (fits_nn _ _ _ Hmt).
+Qed.
+
+Lemma add_many_B (chk : bool) (B : Z) (d : ct) (ins : list ct) :
+  Forall nnct ins -> hB (fits B (csize d)) (add_many chk B d ins) (fun _ => True).
+Proof.
+  intros H. unfold add_many. destruct ins as [ | x [ | y tl ] ].
+  - apply hB_fail.
+  - inversion H; subst. apply unary_into_B; assumption.
+  - inversion H as [ | ? ? Hx H1 ]; subst. inversion H1 as [ | ? ? Hy Htl ]; subst.
+    eapply hB_bind; [ apply acc_fits_B | ]. intros ?u ?Hu.
+    eapply hB_bind; [ apply (lin_into_B chk B d x y Hx Hy) | ]. intros ?u ?Hu.
+    apply hB_fold. intros c Hc. apply lin_assign_B. rewrite Forall_forall in Htl. exact (Htl c Hc).
+Qed.
+
+Lemma mul_many_rec_B (fuel : nat) (B : Z) (d : ct) (ins : list ct) :
+  Forall nnct ins -> hB (fits B (csize d)) (mul_many_rec fuel B d ins) (fun _ => True).
+Proof.
+  intros H. destruct fuel as [ | f ]; cbn [mul_many_rec].
+  - intros m sh Hm. exact I.
+  - apply hB_if; [ apply hB_fail | ].
+    destruct ins as [ | x [ | y [ | z tl ] ] ].
+    + apply hB_fail.
+    + inversion H; subst. apply unary_into_B; assumption.
+    + inversion H as [ | ? ? Hx H1 ]; subst. inversion H1; subst. apply mul_into_B; assumption.
+    + set (ins := x :: y :: z :: tl) in *.
+      eapply hB_bind.
+      { apply on_tmp_B. apply mul_many_rec_fits. apply Forall_firstn. exact H. }
+      intros ml Hl. eapply hB_bind.
+      { apply on_tmp_B. apply mul_many_rec_fits. apply Forall_skipn. exact H. }
+      intros mr Hr. apply mul_into_B; [ exact (fits_nn _ _ _ Hl) | exact (fits_nn _ _ _ Hr) ].
+Qed.
+
+Lemma dot_terms_B (chk : bool) (B : Z) (d : ct) (xs : list ct) (term : ct -> M unit) :
+  (forall x, In x xs -> hR (fun _ => True) (term x) (fun _ m => fits B (csize d) m)) ->
+  (forall x, In x xs -> hB (fits B (csize d)) (term x) (fun _ => True)) ->
+  hB (fits B (csize d)) (dot_terms chk B xs term) (fun _ => True).
+Proof.
+  intros HR HBt. unfold dot_terms. destruct xs as [ | x0 rest ]; [ apply hB_fail | ].
+  eapply hB_bind; [ apply acc_fits_B | ]. intros ?u ?Hu.
+  eapply hB_bind; [ apply HBt; left; reflexivity | ]. intros ?u ?Hu.
+  apply (accumulate_B chk B (csize d) _ _ _ (csize d)). intros x Hx. apply HR. right; exact Hx.
+Qed.
+
+Lemma dot_ct_B (chk : bool) (B : Z) (d : ct) (xs ys : list ct) :
+  Forall nnct xs -> Forall nnct ys -> hB (fits B (csize d)) (dot_ct chk B d xs ys) (fun _ => True).
+Proof.
+  intros Hx Hy. unfold dot_ct. apply hB_if; [ apply hB_fail | ].
+  eapply hB_bind; [ apply acc_fits_B | ]. intros ?u ?Hu.
+  pose proof (Forall_combine_nn xs ys Hx Hy) as Hc.
+  destruct (combine xs ys) as [ | [x0 y0] [ | q rest ] ] eqn:Ec.
+  - apply hB_fail.
+  - inversion Hc as [ | ? ? [H1 H2] _ ]; subst. apply mul_into_B; assumption.
+  - inversion Hc as [ | ? ? [H1 H2] Hrest ]; subst.
+    apply hB_if.
+    + eapply hB_bind; [ apply (mul_into_B B d x0 y0 H1 H2) | ]. intros ?u ?Hu.
+      apply (accumulate_B chk B (csize d) _ _ _ (csize d)).
+      intros p Hp. rewrite Forall_forall in Hrest. destruct (Hrest p Hp) as [P1 P2]. apply mul_into_fits; assumption.
+    + destruct d as [dm ds]. cbn [csize]. destruct H1 as [? ?], H2 as [? ?]. unfold ld_of in *. cbn [fst snd] in *.
+      intros m sh Hm. destruct x0 as [[xl xb] xsz], y0 as [[yl yb] ysz]. cbn [cm csize ld lb] in *.
+      cbv beta iota zeta delta [ssub eff maxk bind ret fail panic set_lb set_ld shift csub cm csize].
+      repeat (match goal with
+              | |- context [if ?c then _ else _] => let E := fresh "E" in destruct c eqn:E
+              end; cbv beta iota zeta).
+      all: try exact Hm; try exact I.
+      all: split; [ | exact I ]; unfold fits, nn, eff in *; cbn [ld lb] in *; lia.
+Qed.
+
+Lemma comp_m_B (chk : bool) (B : Z) (c : comp) (d : ct) (xs ys : list ct) :
+  Forall nnct xs -> Forall nnct ys -> hB (fits B (csize d)) (comp_m chk B c d xs ys) (fun _ => True).
+Proof.
+  intros Hx Hy. pose proof (proj1 (Forall_forall nnct xs) Hx) as Hin.
+  destruct c as [ | | | p | prec | prec none | prec none ]; cbn [comp_m].
+  - apply add_many_B; exact Hx.
+  - unfold mul_many. destruct xs; [ apply hB_fail | apply mul_many_rec_B; exact Hx ].
+  - apply dot_ct_B; assumption.
+  - apply dot_terms_B; intros x Hxin; [ apply mulptz_into_fits | apply mulptz_into_B ]; exact (Hin x Hxin).
+  - apply dot_terms_B; intros x Hxin.
+    + eapply hR_bind; [ apply hR_true | ]. intros ?u. cbv beta. apply mulptz_into_fits. exact (Hin x Hxin).
+    + eapply hB_bind; [ apply to_znx_check_B | ]. intros ?u ?Hu. apply mulptz_into_B. exact (Hin x Hxin).
+  - eapply hB_bind with (Q := fun _ => True); [ destruct xs; [ apply hB_ret; exact I | apply cst_to_znx_B ] | ]. intros ?u ?Hu.
+    apply dot_terms_B; intros x Hxin; [ apply mulcst_into_fits | apply mulcst_into_B ]; exact (Hin x Hxin).
+  - apply dot_terms_B; intros x Hxin.
+    + eapply hR_bind; [ apply hR_true | ]. intros p. cbv beta. apply mulcst_into_fits. exact (Hin x Hxin).
+    + eapply hB_bind with (Q := fun _ => True).
+      { unfold mulcstrnx_prec. destruct none; [ apply hB_ret; exact I | ].
+        eapply hB_bind; [ apply cst_to_znx_B | ]. intros ?u ?Hu. apply hB_ret. exact I. }
+      intros p ?Hp. apply mulcst_into_B. exact (Hin x Hxin).
+Qed.
+
+Lemma comp_fail_keeps_good (chk : bool) (B : Z) (c : comp) (d : ct) (xs ys : list ct) (e : ekind) (m : meta) :
+  1 <= B -> good B d -> Forall (good B) xs -> Forall (good B) ys ->
+  comp_step chk B c d xs ys = Fail e m -> good B (Ct m (csize d)).
+Proof.
+  intros HB Hd Hx Hy E. unfold comp_step in E.
+  assert (Hd' : fits B (csize d) (cm d)).
+  { destruct Hd as [[H1 [H2 H3]] _]. repeat split; assumption. }
+  assert (Hxs : Forall nnct xs) by (eapply Forall_impl; [ | exact Hx ]; intros a; apply good_nnct).
+  assert (Hys : Forall nnct ys) by (eapply Forall_impl; [ | exact Hy ]; intros a; apply good_nnct).
+  pose proof (comp_m_B chk B c d xs ys Hxs Hys (cm d) [] Hd') as H.
+  destruct (comp_m chk B c d xs ys (cm d) []) as [u m1 sh1 | e1 m1 | ]; try discriminate.
+  injection E as <- <-. destruct H as [[H1 H2] H3]. destruct Hd as [_ [H4 H5]].
+  unfold good, inv, maxk; cbn [cm csize]. repeat split; assumption.
 Qed.
 
 Definition done_with (o : outcome) (m : meta) (sz : Z) : Prop :=
